@@ -329,7 +329,7 @@ func (g *pgen) stmt(d int) Stmt {
 		}
 		return s
 	case 6:
-		s := &SFor{Label: g.newLabel(), Var: g.newVar("i"), N: 1 + g.t.Draw(3)}
+		s := &SFor{Label: g.newLabel(), Var: g.newVar("i"), N: 1 + g.t.Draw(3), LetCopy: g.t.Draw(3) == 2}
 		g.withLabel(lblInfo{name: s.Label, isLoop: true}, func() { s.Body = g.block(d) })
 		g.use("for")
 		return s
@@ -349,9 +349,9 @@ func (g *pgen) stmt(d int) Stmt {
 		g.use("for-of")
 		return s
 	case 12:
-		s := &SBlock{Label: g.newLabel()}
+		s := &SBlock{Label: g.newLabel(), Scope: g.t.Draw(3)}
 		g.withLabel(lblInfo{name: s.Label}, func() { s.Body = g.block(d) })
-		g.use("labelled-block")
+		g.use([]string{"labelled-block", "let-scope-block", "with-block"}[s.Scope])
 		return s
 	case 13:
 		s := &SSwitch{Label: g.newLabel(), Disc: &EProbe{Site: g.ns()}}
